@@ -27,6 +27,9 @@
              or render_body() itself - before anything was sent; an error handler then re-fills
              the response and it is rendered once more; fa = 1: only the first rendering raises,
              fa = 2: the second one raises too; see Eff)
+             "disc" (environment action, not a failure: the client disconnects - receive() reports
+             http.disconnect - when the SSE emitter has produced fa items; the framework stops
+             asking the emitter and ends the response; nothing raises)
      err     length of the error document an error handler put into the response, -1 = none
              (always -1 in a case as the application fills it in; set by Eff)
 
@@ -49,11 +52,13 @@
      ForgetCloseOnFault a fault that interrupts streaming skips close()
      StaleLengthOnRenderFault  after a render-phase fault the forced Content-Length of the (empty)
                         error response is forgotten: none, or the application's stale one
+     ReturnOnDisconnect after a client disconnect the SSE loop returns instead of ending the response:
+                        no body event with more_body false is ever sent
      StatusStringAsIs   the WSGI side hands a status that already is a str to start_response
                         unchanged, so the bare code '404' goes out as the status line "404"      *)
 EXTENDS Integers, Sequences, FiniteSets, TLC
 
-CONSTANTS RenderSetsType, BodilessByLine, ForgetCloseOnFault, StaleLengthOnRenderFault, StatusStringAsIs
+CONSTANTS RenderSetsType, BodilessByLine, ForgetCloseOnFault, StaleLengthOnRenderFault, StatusStringAsIs, ReturnOnDisconnect
 
 BODILESS == {100, 101, 204, 304}
 TYPELESS == {204, 304}
@@ -175,10 +180,13 @@ OnlyLastHasNoMoreBodyC(o) ==
     /\ o.complete => (o.ev # <<>> /\ IsFinal(o.ev[Len(o.ev)]))
 NothingAfterFinalC(o) == \A i \in DOMAIN o.ev : IsFinal(o.ev[i]) => i = Len(o.ev)
 (* after a render-phase fault the body is the error handler's business (D-level, see Eff) *)
+(* after a client disconnect the emitter's remaining items need not be sent (where exactly the framework
+   stops is a D-level detail); the response must still be well-formed and ended *)
+Disconnected(c) == c.fk = "disc"
 PrecedenceC(o) ==
     \/ RenderFaulted(o.c)
     \/ /\ IsPrefixOf(o.pieces, ExpectedPieces(o.c))
-       /\ o.complete => o.pieces = ExpectedPieces(o.c)
+       /\ (o.complete /\ ~Disconnected(o.c)) => o.pieces = ExpectedPieces(o.c)
 LengthRequired(c) == c.method # "HEAD" /\ ~StatusBodiless(c) /\ ~Streamed(c)
 LengthConsistentC(o) ==
     (o.complete /\ LengthRequired(o.c) /\ Starts(o.ev) > 0) => StartOf(o.ev).cl = Bytes(o.ev)
@@ -293,7 +301,8 @@ SseNext ==
     /\ UNCHANGED <<c0, c, ev, sends, begun, closes, sendFailed>>
 SseSend ==
     /\ pc = "ssechunk"
-    /\ Send(BodyEvt(1, TRUE, SsePiece(c, hand)[1], hand), "sse", "done")
+    \* the disconnect is noticed after the send that follows it: that item still goes out, then the end
+    /\ Send(BodyEvt(1, TRUE, SsePiece(c, hand)[1], hand), IF Disconnected(c) /\ hand >= c.fa THEN (IF ReturnOnDisconnect THEN "done" ELSE "final") ELSE "sse", "done")
     /\ hand' = -1
     /\ UNCHANGED <<c0, c, k, begun, closes, raised>>
 
@@ -312,6 +321,6 @@ TypelessHaveNoFrameworkType == TypelessHaveNoFrameworkTypeC(Obs)
 OthersHaveType              == OthersHaveTypeC(Obs)
 StatusLineWellFormed        == StatusLineWellFormedC(Obs)
 CloseExactlyOnceOnceBegun   == CloseExactlyOnceOnceBegunC(Obs)
-(* without a fault, and after a (handled) render-phase fault, every response is emitted to its end *)
-FaultFreeCompletes          == (pc = "done" /\ c.fk \in {"none", "render"}) => Obs.complete
+(* without a fault, after a (handled) render-phase fault and after a client disconnect every response is emitted to its end *)
+FaultFreeCompletes          == (pc = "done" /\ c.fk \in {"none", "render", "disc"}) => Obs.complete
 =============================================================================
